@@ -336,6 +336,20 @@ def _instance(dt, alts, profile):
     return ordinal_instance([(o, 1) for o in profile], data_type=DT[dt], alts=list(alts))
 
 
+def _ilp(fn, *a):
+    """python-mip models are freed by the cyclic GC; if that happens while cffi is inside a later solver call,
+    Model.__del__ re-enters cffi's non-reentrant lock and the process deadlocks (observed by the C15 agent).  Collect
+    before the call, keep the collector off during it.  (environment, not /repo)"""
+    import gc
+    gc.collect()
+    gc.disable()
+    try:
+        return guarded(fn, *a)
+    finally:
+        gc.enable()
+        gc.collect()
+
+
 def impl(c):
     from preflibtools.properties.subdomains.ordinal.singlepeaked import singlepeakedness as SPM
     op, pl = c["op"], c["payload"]
@@ -358,7 +372,7 @@ def impl(c):
             r = guarded(SPM.is_single_peaked_pq_tree, _instance(dt, alts, profile))
             res["pq"] = [0, int(bool(r[1]))] if r[0] == 0 else r
         if flags & 2:
-            r = guarded(SPM.is_single_peaked_ILP, _instance(dt, alts, profile))
+            r = _ilp(SPM.is_single_peaked_ILP, _instance(dt, alts, profile))
             if r[0] == 0:
                 v, status, axis = r[1]
                 res["ilp"] = [0, int(bool(v)), [int(a) for a in axis] if axis is not None else None, str(status)]
